@@ -53,8 +53,23 @@ def spaces():
     yield 'discr2d-f32;f', odl.uniform_discr([0, 0], [1, 2], (3, 2), dtype='float32')
 
 
-def rnd(sp, rng):
+VALUE_CLASSES = ['generic', 'special']      # special = exact zeros, negative values, +-inf and NaN entries (floats)
+
+
+def rnd(sp, rng, vcls='generic'):
     k = np.dtype(sp.dtype).kind
+    if vcls == 'special' and k in 'fc':
+        a = rng.uniform(0.2, 2, size=sp.shape) * rng.choice([-1, 1], size=sp.shape)
+        flat = a.ravel()
+        pool = np.array([0.0, -0.0, np.inf, -np.inf, np.nan, 1.0, -1.0, 1e300, 1e-300])
+        idx = rng.integers(0, flat.size, size=max(1, flat.size // 2))
+        flat[idx] = rng.choice(pool, size=len(idx))
+        a = flat.reshape(sp.shape)
+        if k == 'c':
+            a = a + 1j * rng.choice([0.0, 1.0, -2.0, np.inf, np.nan], size=sp.shape)
+        return sp.element(a.astype(sp.dtype))
+    if vcls == 'special' and k == 'i':
+        return sp.element(rng.choice([0, 1, -1, 7, -8, 2 ** 31, -2 ** 31], size=sp.shape).astype(sp.dtype))
     if k == 'f':
         a = rng.uniform(0.2, 2, size=sp.shape) * rng.choice([-1, 1], size=sp.shape)
     elif k == 'c':
@@ -142,11 +157,17 @@ def run_ufuncs(ctx):
         idx += 1
         if not ctx.mine(idx):
             continue
-        C = Checker(ctx, sname, sp, uf)
+        for vcls in (VALUE_CLASSES if (ctx.thorough or idx % 3 == 0) else VALUE_CLASSES[:1]):
+            _one(ctx, rng, idx, sname, sp, uf, vcls)
+
+
+def _one(ctx, rng, idx, sname, sp, uf, vcls):
+    if True:
+        C = Checker(ctx, sname + (';special-values' if vcls == 'special' else ''), sp, uf)
         chk = C.chk
         name = uf.__name__
-        x = rnd(sp, rng)
-        y = rnd(sp, rng)
+        x = rnd(sp, rng, vcls)
+        y = rnd(sp, rng, vcls)
         xa = np.asarray(x).copy()
         ya = np.asarray(y).copy()
         is_discr = isinstance(sp, odl.DiscretizedSpace)
